@@ -36,6 +36,18 @@ POOL = [
 OPS = ["==", "!=", "<", "<=", ">", ">="]
 
 
+def _nest(n, leaf, kind):
+    v = leaf
+    for i in range(n):
+        v = [v] if (kind == "list" or (kind == "mix" and i % 2)) else {"k": v}
+    return v
+
+
+# containers that differ (or not) only far below the surface: the comparison is type-strict at EVERY depth
+POOL += [_nest(40, True, "list"), _nest(40, 1, "list"), _nest(40, 1.0, "list"), _nest(45, False, "dict"), _nest(45, 0, "dict"), _nest(36, [1, True], "mix"), _nest(36, [1, 1], "mix"),
+         _nest(70, None, "mix"), _nest(70, 0, "mix")]
+
+
 def producers_for(v, side, R):
     """Ways of producing comparand v on the given side; returns list of (tag, text, plant dict)."""
     name = "l" if side == 0 else "r"
@@ -48,6 +60,15 @@ def producers_for(v, side, R):
         out.append(("value-of-none", "value(@.none_%s[*])" % name, {"none_" + name: []}))
         out.append(("length-of-number", "length(@.num_%s)" % name, {"num_" + name: 5}))
         out.append(("length-of-missing", "length(@.missing_%s)" % name, {}))
+        # selectors that do not apply to the kind of value they meet select nothing (a string is not an array, an
+        # object with the key "0" has no index 0, an array has no member named "0")
+        out.append(("index-into-string", "@.str_%s[0]" % name, {"str_" + name: "abc"}))
+        out.append(("neg-index-into-string", "@.str_%s[-1]" % name, {"str_" + name: "abc"}))
+        out.append(("abs-index-into-string", "$[0].str_%s[1]" % name, {"str_" + name: "abc"}))
+        out.append(("index-into-object", "@.obj_%s[0]" % name, {"obj_" + name: {"0": 1, "-1": 2}}))
+        out.append(("name-into-array", "@.arn_%s['0']" % name, {"arn_" + name: [1, 2]}))
+        out.append(("name-into-string", "@.str_%s.a" % name, {"str_" + name: "abc"}))
+        out.append(("value-of-index-into-string", "value(@.str_%s[0])" % name, {"str_" + name: "abc"}))
         return out
     out.append(("rel-query", "@.%s" % name, {name: v}))
     out.append(("rel-bracket", "@['%s']" % name, {name: v}))
